@@ -6,6 +6,7 @@ import (
 	"runtime"
 	"sync"
 	"testing"
+	"time"
 
 	"github.com/filecoin-project/go-f3/verifh/vkit"
 )
@@ -22,6 +23,13 @@ var mixes = map[string][]mixEntry{
 	"C06": {{"gst", 100}},
 	"C07": {{"async", 50}, {"gst", 25}, {"honest", 25}},
 }
+
+func blsReplay(run *vkit.Run, prop string, n int) bool {
+	return run.Case >= 0 && blsShare[prop] > 0 && int(run.Case) < n/blsShare[prop]
+}
+
+// blsShare[prop] = k: every k-th execution uses production BLS (0 = never).
+var blsShare = map[string]int{"C03": 40, "C01": 150, "C07": 150}
 
 var counts = map[string][2]int{
 	"C01": {1500, 60000},
@@ -52,7 +60,7 @@ func RunCheck(t *testing.T, prop string) {
 	run := vkit.New(prop, "world", "exploration")
 	n := run.N(counts[prop][0], counts[prop][1])
 	run.SetRule("each evaluation is one seeded execution of N real gpbft.Participants on the virtual-time adversarial network (scenario = committee/power shape, fault assignment, inputs, options, schedule class, Byzantine strategy program); distinct = distinct delivery/timer interleavings (trace hash); non-trivial per property: " + nontrivialRule[prop])
-	run.Assume("signatures are the harness's deterministic stand-in scheme (vsig); unforgeable because Byzantine actors only hold their own keys",
+	run.Assume("signatures are the harness's deterministic stand-in scheme (vsig) except in the executions counted under executions_with_production_bls, which run go-f3's blssig; unforgeable because Byzantine actors only hold their own keys",
 		"reach is limited to the Byzantine strategy templates S1-S6 and the six scheduler classes of DESIGN.md appendix A",
 		"all randomness derives from VERIF_SEED and the case index; go-f3 map-iteration nondeterminism is tolerated")
 	var mu sync.Mutex
@@ -64,6 +72,14 @@ func RunCheck(t *testing.T, prop string) {
 		seed := run.SubSeed(int64(i))
 		class := classFor(prop, seed)
 		sc := GenScenario(seed, class, run.Thorough())
+		if blsShare[prop] > 0 && run.Case < 0 && i < n/blsShare[prop] && len(sc.Members) <= 10 || blsReplay(run, prop, n) && len(sc.Members) <= 10 {
+			// a fixed share of the executions runs go-f3's production BLS code (blssig) end to end:
+			// participants sign, validate, aggregate and the monitor re-verifies with the production verifier
+			sc.UseBLS()
+			if sc.MaxEvents > 4000 {
+				sc.MaxEvents = 4000
+			}
+		}
 		mon := NewMonitor()
 		w, err := NewWorld(sc, mon)
 		if err != nil {
@@ -71,7 +87,11 @@ func RunCheck(t *testing.T, prop string) {
 			return
 		}
 		run.Breadcrumb(fmt.Sprintf("case=%d seed=%d class=%s", i, seed, class))
+		t0 := time.Now()
 		w.Run()
+		if sc.BLS {
+			fmt.Printf("bls-exec case=%d n=%d events=%d delivered=%d wall=%s\n", i, len(sc.Members), w.Events, w.Delivered, time.Since(t0))
+		}
 		run.Eval(1)
 		nontriv := isNontrivial(prop, w, mon)
 		if nontriv {
@@ -95,6 +115,10 @@ func RunCheck(t *testing.T, prop string) {
 			agg["executions_nontrivial"]++
 		}
 		agg["class_"+class]++
+		if sc.BLS {
+			agg["executions_with_production_bls"]++
+			agg["decisions_verified_with_production_bls"] += int64(mon.Decisions)
+		}
 		if int64(mon.MaxRound) > agg["max_round_reached"] {
 			agg["max_round_reached"] = int64(mon.MaxRound)
 		}
